@@ -23,6 +23,7 @@ EXPLANATION = (
     "compared over order regions in the integer domain (`< r+1` is the same atom). Representation: tuple form yields "
     "(x, y, z); id form applies the id function with the cell table's strides (shared with C09); other ret_type raises "
     "TypeError. Centre normalisation and the dispatch of get_neighbours are checked as forwarding facts.")
+EXPLANATION += (" Premise: C09's extents-fixed-after-construction rules.")
 ASSUMPTIONS = ["non-wrapping grid worlds (property scope)", "in-grid centres are non-negative, so int() truncation is floor",
                "extents are 0 or >= 1; radius is a non-negative integer"]
 
@@ -41,6 +42,9 @@ def run(cx: Cx):
         check_pure(cx, f"{DW}.{name}")
     for name in ('get_moore_neighbours', 'get_neumann_neighbours'):
         check_result_fresh(cx, f"{DW}.{name}")
+    from .common import include_premises
+    include_premises(cx, ['C09'], 'the ball is clipped to the extents the world was built with: nothing rewrites them afterwards',
+                     only=lambda o: 'fixed-after-construction' in o.key or 'cell-table-rebuilt' in o.key)
     from .common import check_no_stateful_memo
     check_no_stateful_memo(cx)
 
